@@ -485,7 +485,7 @@ def configs(tier):
     if tier == 'quick':
         degs, fams, cells = [1, 2, 3, 4, 5], ['uniform', 'graded', 'irregular'], lambda d: [d, d + 1, d + 3]
     else:
-        degs, fams, cells = [1, 2, 3, 4, 5, 6, 7], ['uniform', 'graded', 'alternating', 'geometric', 'irregular'], lambda d: [1, 2, d, d + 1, 8]
+        degs, fams, cells = [1, 2, 3, 4, 5, 6, 7, 8, 9, 10], ['uniform', 'graded', 'decreasing', 'alternating', 'geometric', 'irregular'], lambda d: [1, 2, d, d + 1, d + 2, 8, 12]
     for d in degs:
         for fam in fams:
             for n in sorted(set(cells(d))):
@@ -510,6 +510,9 @@ def configs(tier):
         for da, db in itertools.product([1, 2, 3, 4, 5], repeat=2):
             c2.append(((da, True, 'graded', da + 1), (db, False, 'irregular', 2), 'nu', None))
             c2.append(((da, False, 'geometric', 2), (db, True, 'alternating', db + 1), 'nu', None))
+            if da <= db:
+                c2.append(((da, True, 'decreasing', da + 2), (db, True, 'graded', db), 'nu', None))            # periodic x periodic (ncells == degree in the second)
+                c2.append(((da, False, 'irregular', 3), (db, False, 'decreasing', 1), 'nu', None))            # clamped x clamped (one cell in the second)
         c2 += [((3, True, 'uniform', 5), (3, False, 'uniform', 3), 'cu', None), ((3, False, 'uniform', 1), (3, True, 'uniform', 4), 'cu', None),
                ((3, True, 'uniform', 4), (3, True, 'uniform', 5), 'cu', None), ((3, False, 'uniform', 2), (3, False, 'uniform', 3), 'cu', None)]
     return c1, c2
@@ -570,7 +573,7 @@ def main():
     numenv.disable()
     run.sections['solves'] = solves
     run.sections['configs'] = dict(one_d=len(c1), two_d=len(c2))
-    run.bounds = dict(quick='degrees 1-5, 3 knot families, cells d+1/d+3, uniform-cubic 1/4/6 cells, three 2-D spaces', thorough='degrees 1-7, 5 families, cells {1,2,d+1,8}; 2-D 5x5 degrees', this_run=run.tier)
+    run.bounds = dict(quick='degrees 1-5, 3 knot families, cells d+1/d+3, uniform-cubic 1/4/6 cells, three 2-D spaces', thorough='degrees 1-10, 6 families, cells {1,2,d,d+1,d+2,8,12}; 2-D 5x5 degrees in four boundary combinations', this_run=run.tier)
     run.outside = ['conditioning / rounding of the factorisation (badly scaled data only in the exact sense)', 'the LAPACK/SuperLU elimination itself (contract)',
                    'complex data: pairs of symbolic reals through the real code; dgbtrs (f2py cast to float64) discards imaginary parts, zgbtrs keeps them']
     run.assumptions = ['exact reals for doubles', 'LAPACK band layout as documented', 'np.around(.,15) identity']
